@@ -399,7 +399,7 @@ def run_shard(spec, seed, tier):
     elif spec["kind"] == "fuzz":
         simple.fuzz_stage(res, "props.c17", seed, 40000)
     else:
-        hyp.search(res, st_case(), simple.make_body(mod), seed, 1200 if tier == "quick" else 15000)
+        hyp.search(res, st_case(), simple.make_body(mod), seed, 3000 if tier == "quick" else 50000)
     return res
 
 
